@@ -194,6 +194,28 @@ def gen_history(tier, seed):
                 cnt("setvalues")
                 lines.append("dumpall")
                 continue
+            elif roll < 0.935:
+                # full / full_like filled from an ndarray of the complete shape: the new array is a
+                # constant of its own (neither follows the ndarray nor leads it)
+                vh = nxt[1]; nxt[1] += 1
+                bad = r.random() < 0.15
+                shp = la + ["e"] if bad else la
+                lines.append(f"nd ${vh} {shape(shp)} {vals(size(shp))}")
+                hr = nxt[1]; nxt[1] += 1
+                if r.random() < 0.5:
+                    lines.append(f"fulllike ${hr} ${a} ${vh}")
+                else:
+                    lines.append(f"fullnd ${hr} ${new_dset(la)} ${vh}")
+                cnt("full_from_ndarray")
+                lines.append("dumpall")
+                lines.append(f"ndwrite ${vh} {r.randrange(max(1, size(shp)))} 77")
+                lines.append("dumpall")
+                lines.append(f"probe_write ${hr} 0 55")
+                lines.append("dumpall")
+                lines.append(f"ndwrite ${vh} {max(0, size(shp) - 1)} 66")     # shows the whole ndarray again
+                if not bad:
+                    arrs[hr] = list(la)
+                continue
             elif roll < 0.96:
                 # stocks and lifetime models built from existing arrays / dimension sets
                 tl = r.choice(["t", "t", "a"])
